@@ -335,8 +335,18 @@ class ChunkFamily(Family):
                 for bad in (0, 1 << 31, (1 << 31) + 1, M32 - 1):
                     bump(stats, "refused_size_then_use")
                     yield [f"!cs.refused {prev} {bad} {rng.choice([1, 129, 300, 9000])}",
-                           "ser.new"] + ([f"ser.setcs {prev} 0"] if prev else []) + [f"ser.setcs {bad} 0", f"ser.msg 9 1 0 0 0 {GC.payload_tok(2, 300)}",
-                           "des.new"] + ([f"des.setcs {prev}"] if prev else []) + [f"des.setcs {bad}", f"des.feedpk {'11' if prev else '1'} all"]
+                           "ser.new"] + ([f"ser.setcs {prev} 0"] if prev else []) + [f"ser.msg 3 0 10 0 0 00000100", f"ser.setcs {bad} 20", "ser.msg 3 0 30 0 0 00000200", f"ser.msg 9 1 0 0 0 {GC.payload_tok(2, 300)}",
+                           "des.new"] + ([f"des.setcs {prev}"] if prev else []) + [f"des.setcs {bad}", f"des.feedpk {'1111' if prev else '111'} all"]
+            # a header that announces FEWER bytes than the message under way already holds is refused (InvalidMessageLength),
+            # never accepted silently
+            for held, announced in ((128, 10), (128, 127), (128, 0), (256, 200)):
+                bump(stats, "shorter_length_cases")
+                first = bytes([4]) + bytes(3) + (held + 100).to_bytes(3, "big") + bytes([9]) + (1).to_bytes(4, "little") + bytes(128)
+                more = (bytes([0xC4]) + bytes(128)) if held == 256 else b""
+                for hdr in (bytes([4]) + bytes(3) + announced.to_bytes(3, "big") + bytes([9]) + (1).to_bytes(4, "little"),
+                            bytes([0x44]) + bytes(3) + announced.to_bytes(3, "big") + bytes([9])):
+                    bs = first + more + hdr + bytes(announced)
+                    yield ["des.new", f"des.feed all {hexb(bs)}", f"!des.shorter {held} {announced} {hexb(bs)}"]
         # seed-independent small-scope part
         alpha = GC.small_alphabet()
         stats["small_alphabet"] = len(alpha)
